@@ -27,6 +27,8 @@ Rewrites applied to copied repository text (each is logged):
   * derive lists filtered to the entries Verus supports (Clone, Copy, PartialEq, Eq) unless derive= given
   * `pub(crate)` / `pub(super)` -> `pub`;  private struct fields and private fns -> `pub`
   * `-> T` -> `-> (ret: T)` for functions given ret=
+  * only for functions given `ghost_iter=<name>`: `for PAT in EXPR {` -> `for PAT in <name>: EXPR {` (Verus syntax naming the loop's
+    ghost iterator for use in invariants; the executable loop is unchanged)
   * only for functions given `unfold_map`: `let x = RECV.map(|p| { BODY });` ->
     `let x = match RECV { Some(p) => Some({ BODY }), None => None };` — the definition of Option::map, written out
     because Verus rejects closures that capture `&mut self`.  BODY is copied untouched; RECV must not contain `;`.
@@ -158,6 +160,28 @@ def unfold_option_map(body, relpath, base_line, rw):
         tail = '}), None => None }' + '\n' * body[close_brace:k + 1].count('\n')
         rw.add('unfold-option-map', relpath, base_line + body.count('\n', 0, m.start()), body[m.start():m.end()], head)
         body = body[:m.start()] + head + body[m.end():close_brace] + tail + body[k + 1:]
+
+
+def name_ghost_iterators(body, base, relpath, base_line, rw):
+    """`for PAT in EXPR {` -> `for PAT in it: EXPR {`: Verus syntax that names the loop's ghost iterator so that an
+    invariant can say how far the loop has got; no effect on the executable code.  k-th `for` loop gets base, base1, ..."""
+    k = 0
+    pos = 0
+    while True:
+        mb = mask(body)
+        loops = [l for l in find_loops(mb) if mb.startswith('for', l[0]) and l[0] >= pos]
+        if not loops:
+            return body
+        kw, brace = loops[0]
+        m = re.search(r'\sin\s', mb[kw:brace])
+        if not m:
+            raise WeaveError('ghost_iter: no `in` in for-loop header (%s line %d)' % (relpath, base_line + body.count('\n', 0, kw)))
+        at = kw + m.end()
+        name = base if k == 0 else '%s%d' % (base, k)
+        rw.add('name-ghost-iterator', relpath, base_line + body.count('\n', 0, kw), body[kw:brace], body[kw:at] + name + ': ' + body[at:brace])
+        body = body[:at] + name + ': ' + body[at:]
+        pos = at + len(name) + 2
+        k += 1
 
 
 def widen_struct_fields(text, relpath, base_line, rw):
@@ -431,6 +455,8 @@ class Weaver:
         body = rewrite_item(body, rel, body_line, self.rw, widen=False)
         if 'unfold_map' in opts:
             body = unfold_option_map(body, rel, body_line, self.rw)
+        if 'ghost_iter' in opts:
+            body = name_ghost_iterators(body, opts['ghost_iter'], rel, body_line, self.rw)
         mbody = mask(body)
         # insertion points into body: offset -> payload
         ins = []
